@@ -7,6 +7,7 @@ package main
 import (
 	"context"
 	"fmt"
+	"github.com/pingcap/kvproto/pkg/kvrpcpb"
 	"math/rand"
 	"sync/atomic"
 
@@ -45,6 +46,9 @@ var shapes = []shape{
 	// the primary is the largest key (pessimistic: the key locked first), so its batch is the last one in key order
 	{"lastprimary", []M{{"c": "set", "k": 4, "v": 14}, {"c": "set", "k": 1, "v": 11}, {"c": "set", "k": 3, "v": 13}}, nil, []int{4}, ""},
 	{"midprimary", []M{{"c": "set", "k": 3, "v": 13}, {"c": "set", "k": 1, "v": 11}, {"c": "delete", "k": 4}}, []int{2}, []int{3}, ""},
+	// optimistic only: a key that exists is inserted (existence presumed, checked at commit) and deleted again - the commit carries
+	// a non-locking existence check that fails, next to a key that is locked
+	{"insdel_exists", []M{{"c": "insert", "k": 2, "v": 12}, {"c": "delete", "k": 2}, {"c": "set", "k": 4, "v": 14}}, nil, nil, ""},
 }
 var layouts = [][]int{{}, {3}, {2, 3, 4}}
 var baseData = map[int]int{1: 1, 2: 2, 4: 4}
@@ -217,6 +221,9 @@ func runC02(w *World, rng *rand.Rand, div int) {
 		for si, sh := range shapes {
 			for li, lay := range layouts {
 				for _, pess := range []bool{false, true} {
+					if pess && sh.name == "insdel_exists" {
+						continue // a pessimistic insert checks existence when it locks: the program would not get as far as Commit
+					}
 					if useUni && cm.async && pess && len(sh.locks) > 0 {
 						// unistore keeps no commit record for a lock-only SECONDARY key (writeBatch.Commit writes the Op_Lock status for
 						// the primary only): CheckSecondaryLocks on such a key after its commit reports "no lock, not committed" and
@@ -427,6 +434,9 @@ func runC03(w *World, rng *rand.Rand, div int) {
 		for _, sh := range shapes {
 			for _, lay := range layouts {
 				for _, pess := range []bool{false, true} {
+					if pess && sh.name == "insdel_exists" {
+						continue
+					}
 					if useUni && cm.async && pess && len(sh.locks) > 0 {
 						continue // see runC02: unistore keeps no commit record for a lock-only secondary key
 					}
@@ -474,6 +484,14 @@ func runC03(w *World, rng *rand.Rand, div int) {
 							}
 						}
 					}
+					// async commit, a failing non-locking existence check next to a locked key: when the check is about to fail, another client
+					// considers the lock expired (i1 = -4: at the first prewrite that only checks, once a locking prewrite went before it;
+					// which of the two the committer sends first varies, so the script is run several times)
+					if cm.async && sh.name == "insdel_exists" {
+						for k := 0; k < 6; k++ {
+							scripts = append(scripts, script{i1: -4, f1: "resolver_dies", i2: -1, must: true})
+						}
+					}
 					// doubles: sampled
 					for d := 0; d < n*2; d++ {
 						i1, i2 := rng.Intn(n), rng.Intn(n+2)
@@ -498,7 +516,19 @@ func runC03(w *World, rng *rand.Rand, div int) {
 						early := func(f string, req *tikvrpc.Request) bool {
 							return useUni && cm.async && f == "resolver_dies" && req.Type != tikvrpc.CmdCommit && req.Type != tikvrpc.CmdBatchRollback
 						}
+						var lockedSome atomic.Bool
 						runVictim(w, r, sh, pess, func(idx int, req *tikvrpc.Request) Action {
+							if req.Type == tikvrpc.CmdPrewrite {
+								onlyChecks := true
+								for _, m := range req.Prewrite().Mutations {
+									onlyChecks = onlyChecks && m.Op == kvrpcpb.Op_CheckNotExists
+								}
+								if !onlyChecks {
+									lockedSome.Store(true)
+								} else if sc.i1 == -4 && lockedSome.Load() && atomic.CompareAndSwapInt32(&f1, 0, 1) {
+									return faultAction(w, r, sc.f1, "a")
+								}
+							}
 							if idx == sc.i1 && !early(sc.f1, req) && atomic.CompareAndSwapInt32(&f1, 0, 1) {
 								return faultAction(w, r, sc.f1, "a")
 							}
